@@ -156,6 +156,10 @@ def run(tier):
     from . import folding
     nf = folding.check(rep, F)
     rep.floor("folding cases decided", nf, 36)
+    # what one round of the quoted-scalar content loop does ('' un-doubling, closing quote, escaped line break, escapes, ordinary characters)
+    from . import quoting
+    nq_ = quoting.check(rep, F)
+    rep.floor("quoted-scalar content cases", nq_, 100)
     rep.extra["escape_table"] = {("\\" + (chr(k) if k > 32 else "x%02x" % k)): "U+%04X" % v for k, v in sorted(named.items())}
     rep.extra["hex_lengths"] = {"\\" + chr(k): v for k, v in sorted(hexlen.items())}
     return rep
